@@ -268,7 +268,16 @@ def rule_b5(ctx: Ctx) -> None:
         raise AnalysisError("; ".join(sub.undecided))
 
 
+GENERIC_FILES = ['permuta/patterns/meshpatt.py', 'permuta/patterns/bivincularpatt.py', 'permuta/patterns/perm.py']
+
+
 def variants():
+    from ..selftest import generic_silent
+
+    return _variants() + generic_silent(GENERIC_FILES)
+
+
+def _variants():
     from ..selftest import V, insert_stmt, reformat_only, rename_local, replace_expr, replace_stmt
 
     BV, MP, PE = "permuta/patterns/bivincularpatt.py", "permuta/patterns/meshpatt.py", "permuta/patterns/perm.py"
